@@ -1,7 +1,7 @@
 (** The head of push: what the replace loop and the cut at the start establish, by the
     position of the frame's start relative to the start gap. *)
 From Coq Require Import List ZArith Lia Bool Permutation.
-From V Require Import Gen.Params Lib.Hex FrameSorter.Model FrameSorter.InvCheck FrameSorter.ProofsBase
+From V Require Import Gen.Params Lib.Hex FrameSorter.Model FrameSorter.InvCheck FrameSorter.Spec FrameSorter.ProofsBase
   FrameSorter.ProofsLoops FrameSorter.ProofsFind FrameSorter.ProofsPop FrameSorter.ProofsInv
   FrameSorter.ProofsReinsert FrameSorter.ProofsTail.
 Import ListNotations.
